@@ -202,11 +202,43 @@ def solve_and_compare(real: Real, spec: Spec, tol=1e-9):
     err = float(np.max(np.abs(T - Tref))) if T.size else 0.0
     if not (err <= tol * max(1.0, cond)):
         return False, f"solve after the history differs from the freshly built circuit by {err:.3e}"
+    real.last_solve = (names, T, cond)
     return True, "ok"
 
 
 # ---------------------------------------------------------------- correspondence with the Lean wiring model
-def to_model_ops(comps, executed):
+def model_solve_compare(ctx, comps, executed, solves, name, replay):
+    """`solves` = [(position in executed, exposed names, real matrix, condition number)]: the same history through the wiring model,
+    the network each state denotes (Wiring.denote) through the model's elimination loop, against the real solve of that moment"""
+    if not solves or len(comps) > 8 or any(len(c["pins"]) == 0 for c in comps):
+        return
+    ops, idx, names = to_model_ops(comps, executed, with_solve=True)
+    expnames = [None] * len(names)
+    for nm, k in names.items():
+        expnames[k] = nm
+    ans = ctx.driver.ask({"op": "wsolve", "comps": [{"pins": c["pins"], "idx": c["idx"], "S": gen.mat_json(c["S"])} for c in comps],
+                          "ops": ops, "names": [[names[p] for p in c["pins"]] for c in comps], "expnames": expnames})
+    if "solves" not in ans or len(ans["solves"]) != len(solves):
+        ctx.disagreement(name, f"model: {str(ans)[:100]} ({len(solves)} solves expected)", replay)
+        return
+    for (k, rnames, T, cond), m in zip(solves, ans["solves"]):
+        if "T" not in m:
+            ctx.disagreement(name, f"the network the model state denotes after {executed[k - 1] if k else 'start'} does not solve: {m}", replay)
+            return
+        if sorted(m["names"]) != sorted(rnames):
+            ctx.disagreement(name, f"exposed names of the denoted network {m['names']} vs the code {rnames}", replay)
+            return
+        n = len(rnames)
+        order = [m["names"].index(x) for x in rnames]
+        Tm = gen.json_mat_np([z for row in m["T"] for z in row], n, n) if n else np.zeros((0, 0), complex)
+        Tm = Tm[np.ix_(order, order)] if n else Tm
+        ctx.tag("model:wiring-solve")
+        if Tm.size and float(np.max(np.abs(Tm - T))) > 1e-9 * max(1.0, cond):
+            ctx.disagreement(name, f"solve of the network the model state denotes differs from the code's solve after the history (step {k})", replay)
+            return
+
+
+def to_model_ops(comps, executed, with_solve=False):
     """translate the executed calls (pin names) into model ops (pin indices); returns (ops, expected outcome kinds)"""
     def pid(c, p):
         try:
@@ -252,6 +284,8 @@ def to_model_ops(comps, executed):
                 ops.append(["connect", e[2], pid(e[2], e[3]), 99, 0]); idx.append(k)
             elif sub == "duplicate-add":
                 ops.append(["add", e[2]]); idx.append(k)
+        elif kind == "solve" and with_solve:
+            ops.append(["solve"]); idx.append(k)
         # solve / complete do not change the modelled tables
     return ops, idx, names
 
